@@ -2,6 +2,8 @@
 //!
 //! usage: bpsim <C01|...|replay|selftest|single-op> [--tier quick|thorough] [--seed N] [--jobs J]
 
+#![allow(dead_code, private_interfaces)]
+
 mod alloc;
 mod channel;
 mod checks;
